@@ -29,15 +29,7 @@ class Server:
                     if rs and all(self.is_transport_item(r) and ('v', 'Cancel') in p for r, p in rs):
                         self.cancel_sites.append((g, bb, c, m))
         # blocks of the stream's poll from which a cancel site is reached (the call itself, or a call to a helper that contains it)
-        self.cancel_blocks = set()
-        for g, bb, c, m in self.cancel_sites:
-            if g.id == self.poll_next.id:
-                self.cancel_blocks.add(bb)
-            else:
-                for b2, c2 in self.poll_next.calls():
-                    h = F.callee_fn(c2)
-                    if h is not None and any(x.id == g.id for x in reachable_local_fns(F, h, depth=4)):
-                        self.cancel_blocks.add(b2)
+        self.cancel_blocks = self.cancel_blocks_in(self.poll_next)
         ms = {m.id: m for _, _, _, m in self.cancel_sites}
         self.aborting = list(ms.values())[0] if len(ms) == 1 else None
         resp = {}
@@ -56,6 +48,19 @@ class Server:
         self.register = regs[0]
         self.execute = F.inherent('server::InFlightRequest', 'execute')
         self.requests_poll = F.trait_method('Stream', 'server::Requests', 'poll_next')
+
+    def cancel_blocks_in(self, body):
+        from .common import reachable_local_fns
+        out = set()
+        for g, bb, c, m in self.cancel_sites:
+            if g.id == body.id:
+                out.add(bb)
+            else:
+                for b2, c2 in body.calls():
+                    h = self.F.callee_fn(c2)
+                    if h is not None and any(x.id == g.id for x in reachable_local_fns(self.F, h, depth=4)):
+                        out.add(b2)
+        return out
 
     def key_param(self, m):
         """parameter of table method m that keys its HashMap operation"""
@@ -109,7 +114,8 @@ def guard_always_disarmed(ctx, tag, S):
     flag = F.field_of_type('server::ResponseGuard', lambda t: t == 'bool')
     ex = S.execute
     done = False
-    for f in F.with_descendants(ex):
+    from .common import deep_bodies as _db
+    for f in _db(F, ex):
         ab = [(bb, t) for bb, t in f.calls() if callee_is(t, 'Abortable::new')]
         if len(ab) != 1:
             continue
@@ -121,12 +127,12 @@ def guard_always_disarmed(ctx, tag, S):
         ok = a is not None and a['ready_bb'] is not None and bool(dis) and cfg.all_paths_pass(f, a['ready_bb'], cfg.exits(f), set(dis))
         # every response hand-off (send on the response queue) completes before the disarm: it is inside the Abortable, or its await
         # dominates the disarm
+        from .common import future_bodies, deep_bodies
         inner_ids = set()
-        for r, _ in P.root(P.operand(f, ab[0][1]['args'][0], at=ab[0][0])):
-            if r[0] == 'agg':
-                inner_ids.add(P._agg_rv(r).get('adt_id'))
+        for fb_ in future_bodies(F, P, f, ab[0][1]['args'][0], ab[0][0]):
+            inner_ids |= {x.id for x in deep_bodies(F, fb_)}
         late = []
-        for g in F.with_descendants(ex):
+        for g in _db(F, ex):
             for bb2, t2 in g.calls():
                 if callee_is(t2, 'mpsc::Sender::send', 'mpsc::Sender::try_send', 'mpsc::Sender::send_timeout'):
                     inside = any(g.id == i or (i and g.id.startswith(i)) for i in inner_ids)
